@@ -102,3 +102,10 @@ func VerifTakeEvents() []VCompactEvent {
 	verifCompEv.log = nil
 	return out
 }
+
+// VerifPutBackEvents prepends events to the log (the harness splits a batch it took).
+func VerifPutBackEvents(evs []VCompactEvent) {
+	verifCompEv.Lock()
+	defer verifCompEv.Unlock()
+	verifCompEv.log = append(append([]VCompactEvent{}, evs...), verifCompEv.log...)
+}
